@@ -596,7 +596,8 @@ func c14r13(c *Ctx) {
 		})
 		if nObj != nil {
 			ast.Inspect(f.Decl.Body, func(x ast.Node) bool {
-				if inc, ok := x.(*ast.IncDecStmt); ok && inc.Tok == token.INC && prog.ObjOf(info, inc.X) == nObj {
+				if incX, incTok, ok := incDecNode(info, x); ok && incTok == token.INC && prog.ObjOf(info, incX) == nObj {
+					inc := x
 					for _, a := range f.GuardsAt(inc) {
 						if a.Op == token.EQL && (prog.ObjOf(info, a.Y) == nObj || prog.ObjOf(info, a.X) == nObj) {
 							okInc = true
